@@ -609,6 +609,12 @@ class BaseWorklist(list):
         dst_start, dst_end = dst_wells[0], dst_wells[-1]
         excluded_dst_wells = set(range(dst_start, dst_end + 1)).difference(dst_wells)
 
+        # update volume tracking first, such that the volume checks are passed before anything is emitted
+        n_dst = len(dst_wells)
+        source.remove(source.wells[0, source_column], volume * n_dst, label=label)
+        src_composition = source.get_well_composition(source.wells[0, source_column])
+        destination.add(destination_wells, volume, label=label, compositions=[src_composition] * n_dst)
+
         # hand over to low-level command implementation
         self.comment(label)
         self.reagent_distribution(
@@ -630,11 +636,6 @@ class BaseWorklist(list):
             dst_rack_type=dst_rack_type,
         )
 
-        # update volume tracking
-        n_dst = len(dst_wells)
-        source.remove(source.wells[0, source_column], volume * n_dst, label=label)
-        src_composition = source.get_well_composition(source.wells[0, source_column])
-        destination.add(destination_wells, volume, label=label, compositions=[src_composition] * n_dst)
         return
 
     def __repr__(self) -> str:
